@@ -87,6 +87,10 @@ class Def(object):
                                        self.node.id)
 
 
+def depth_ok(fl):
+    return getattr(fl, "_bool_depth", 0) < 6
+
+
 class Flow(object):
     def __init__(self, fn, pure_self_methods=(), pure_calls=(),
                  consts=None, inline_props=None, inline_methods=None):
@@ -787,6 +791,22 @@ class Flow(object):
         return self._composite(name, others, (which, others))
 
     # -- facts ---------------------------------------------------------------------
+    def fact_valid(self, a, node):
+        """Is what the assume node ``a`` established still true on entry to
+        ``node`` (nothing its condition mentions is re-defined on a path
+        from ``a`` to ``node``)?"""
+        atoms = set()
+        for p in self._cond_polys(a.ast, a, 0):
+            atoms |= p.atoms()
+        # composite operands (len(x), x[i] ...) depend on the same atoms
+        for sub in ast.walk(a.ast):
+            if isinstance(sub, (ast.Call, ast.Subscript)):
+                try:
+                    atoms |= self.sym(sub, a).atoms()
+                except AnalysisError:
+                    pass
+        return self._available(atoms, a, node)
+
     def facts(self, node):
         """[(cond expr, polarity, assume node)] for every assume node that
         dominates ``node`` and is still valid there."""
@@ -796,17 +816,7 @@ class Flow(object):
             a = self.cfg.nodes[nid]
             if a.kind != "assume" or a is node:
                 continue
-            atoms = set()
-            for p in self._cond_polys(a.ast, a, 0):
-                atoms |= p.atoms()
-            # composite operands (len(x), x[i] ...) depend on the same atoms
-            for sub in ast.walk(a.ast):
-                if isinstance(sub, (ast.Call, ast.Subscript)):
-                    try:
-                        atoms |= self.sym(sub, a).atoms()
-                    except AnalysisError:
-                        pass
-            if self._available(atoms, a, node):
+            if self.fact_valid(a, node):
                 out.append((a.ast, a.polarity, a))
         return out
 
@@ -850,6 +860,40 @@ class Flow(object):
                     out += self.cond_constraints(v, False, at)
                 return out
             return []
+        if isinstance(cond, ast.Name) and depth_ok(self):
+            # a boolean kept in a variable: ``ok = a < b and c; if ok:``
+            # reads like the test itself while nothing it mentions changes
+            try:
+                ds = self.reaching(cond.id, at)
+            except AnalysisError:
+                ds = []
+            if len(ds) == 1 and ds[0].mode == "assign" and isinstance(
+                    ds[0].value, (ast.Compare, ast.BoolOp, ast.UnaryOp,
+                                  ast.Name)) and ds[0].node is not at:
+                names = set(x.id for x in ast.walk(ds[0].value)
+                            if isinstance(x, ast.Name))
+                stable = True
+                for nm in names:
+                    try:
+                        here = set(id(d) for d in self.reaching(nm, at))
+                        there = set(id(d) for d in self.reaching(
+                            nm, ds[0].node))
+                    except AnalysisError:
+                        stable = False
+                        break
+                    if here != there and nm != cond.id:
+                        stable = False
+                    if nm == cond.id:
+                        # ok = ok and ...: the previous value, as it was
+                        # where this one was computed
+                        pass
+                if stable:
+                    self._bool_depth = getattr(self, "_bool_depth", 0) + 1
+                    try:
+                        return self.cond_constraints(ds[0].value, polarity,
+                                                     ds[0].node)
+                    finally:
+                        self._bool_depth -= 1
         return []
 
     def _cmp(self, l, op, r, polarity, at):
